@@ -20,6 +20,7 @@ def _run_shard(binp, harness_prop, driver, tier, seed, outdir, run_driver, extra
         return {"crash": p.stdout[-3000:], "seed": seed}
     run_driver(driver, os.path.join(outdir, "ops.txt"), os.path.join(outdir, "model.txt"))
     mism = []
+    percat = {}
     n = 0
     with open(os.path.join(outdir, "ops.txt")) as fo, open(os.path.join(outdir, "impl.txt")) as fi, \
             open(os.path.join(outdir, "model.txt")) as fm, open(os.path.join(outdir, "cats.txt")) as fc:
@@ -27,7 +28,10 @@ def _run_shard(binp, harness_prop, driver, tier, seed, outdir, run_driver, extra
             n += 1
             a, b, op, cat = a.rstrip("\n"), b.rstrip("\n"), op.rstrip("\n"), cat.rstrip("\n")
             if a != b:
-                if len(mism) < 200:
+                # keep the first mismatches of EVERY category: a noisy category (e.g. a known finding) must
+                # never crowd out another one
+                percat[cat] = percat.get(cat, 0) + 1
+                if percat[cat] <= 25:
                     mism.append({"line": n, "cat": cat, "op": op[:4000], "impl": a[:2000], "model": b[:2000], "seed": seed})
                 else:
                     mism.append(None)
